@@ -1,9 +1,129 @@
-import Okane.Drv.IOUtil
-/-! Driver commands for C11 (stub: replaced when the property's streams are built). -/
+import Okane.Drv.Core
+import Okane.Spec.Load
+/-!
+Driver for C11.  `drv c11 load cs=<0|1> sep=<0|1> dot=<0|1>`: input = output lines of `hx c11 load`
+(the implementation's parsed files, callback sequences on both file systems, and every glob call);
+the three flags are `glob_match_options()` as probed from `/repo/core/src/load.rs`.
+Output: `<id> fake=<v> prod=<v> gfake=<v> gprod=<v> spec=<v>` where `<v>` is `agree` or `DISAGREE:<what the model says>`:
+  fake / prod : model `load` on `fakeFS` / `prodFS` of the decoded tree vs. the implementation's callback sequence + error kind
+  gfake/gprod : model glob vs. every recorded glob call whose pattern lies in the modelled fragment
+  spec        : the property's statement (`expand`, plain substitution) evaluated against what the implementation delivered
+-/
 namespace Okane.Drv.C11
+open Okane Okane.Drv Okane.Load Sexp
 
-def main (args : List String) : IO Unit := do
-  let _ := args
-  pure ()
+def decFile : Sexp → Option (String × Raw)
+  | .list (p :: .atom "bin" :: _) => do pure ((← p.str?), .notUtf8)
+  | .list (p :: .atom "ok" :: es) => do pure ((← p.str?), .text ⟨← es.mapM decEntry, false⟩)
+  | .list (p :: .atom "perr" :: es) => do pure ((← p.str?), .text ⟨← es.mapM decEntry, true⟩)
+  | _ => none
+
+/-- `(ok (path entry)...)` / `(err Kind (path entry)...)` -/
+def decRes : Sexp → Option (String × List (String × Entry))
+  | .list (.atom "ok" :: xs) => do pure ("ok", ← xs.mapM decPE)
+  | .list (.atom "err" :: .atom k :: xs) => do pure (k, ← xs.mapM decPE)
+  | _ => none
+where decPE : Sexp → Option (String × Entry)
+  | .list [p, e] => do pure ((← p.str?), (← decEntry e))
+  | _ => none
+
+def decGlob : Sexp → Option (String × Option (List String))
+  | .list (p :: .atom "ok" :: ps) => do pure ((← p.str?), some (← ps.mapM Sexp.str?))
+  | .list [p, .atom "err", .atom _] => do pure ((← p.str?), none)
+  | _ => none
+
+def kindOf : Outcome LoadErr Unit → String
+  | .ok _ => "ok"
+  | .err (.io .notFound _) => "IO:NotFound"
+  | .err (.io .invalidData _) => "IO:InvalidData"
+  | .err (.io .other _) => "IO:*"
+  | .err (.parse _) => "Parse"
+  | .err (.rootLoadingPath _) => "RootLoadingPath"
+  | .err (.recursiveInclude _) => "RecursiveInclude"
+  | .err .invalidIncludeGlob => "InvalidIncludeGlob"
+  | .err .globFailure => "GlobFailure"
+  | .panic _ => "panic"
+  | .fuelOut => "fuelOut"
+
+def kindEq (model impl : String) : Bool :=
+  model == impl || (model == "IO:*" && impl.startsWith "IO:" && impl != "IO:NotFound" && impl != "IO:InvalidData")
+
+def seqEq : List (String × Entry) → List (String × Entry) → Bool
+  | [], [] => true
+  | (p, e) :: xs, (q, f) :: ys => p == q && e == f && seqEq xs ys
+  | _, _ => false
+
+def showSeq (xs : List (String × Entry)) : String :=
+  " ".intercalate (xs.map fun pe => "(" ++ Sexp.encode pe.1 ++ " " ++ (encEntry pe.2).toStr ++ ")")
+
+def compareLoad (r : LoadRes) (impl : String × List (String × Entry)) : String :=
+  let m := r.delivered.map fun pe => (pathStr pe.1, pe.2)
+  if kindEq (kindOf r.status) impl.1 && seqEq m impl.2 then "agree"
+  else s!"DISAGREE:({kindOf r.status} {showSeq m})"
+
+def sortStrs (xs : List String) : List String := (xs.toArray.qsort (· < ·)).toList
+
+def inFragment (pat : String) : Bool :=
+  match tokenize pat.toList with
+  | .unsupported => false
+  | _ => true
+
+def compareGlobs (g : String → Outcome LoadErr (List Path)) (recorded : List (String × Option (List String))) : String :=
+  let bad := recorded.filterMap fun (pat, res) =>
+    if !inFragment pat then none else
+    let m : Option (List String) := match g pat with
+      | .ok ps => some (sortStrs (ps.map pathStr))
+      | _ => none
+    if m == res.map sortStrs then none
+    else some s!"({Sexp.encode pat} model={match m with | some ps => " ".intercalate (ps.map Sexp.encode) | none => "err"})"
+  if bad.isEmpty then "agree" else "DISAGREE:" ++ " ".intercalate bad
+
+def flag (args : List String) (name : String) (dflt : Bool) : Bool :=
+  match args.find? (·.startsWith (name ++ "=")) with
+  | some a => a.endsWith "1"
+  | none => dflt
+
+def step (o : GlobOpts) (line : String) : String :=
+  let (id, fs) := splitFields line
+  let get (k : String) := (field fs k).bind Sexp.parse
+  match get "files", get "dirs", (field fs "root").bind Sexp.decode, get "fake", get "prod", get "gfake", get "gprod" with
+  | some (.list fl), some (.list dl), some root, some fake, some prod, some (.list gf), some (.list gp) =>
+    match fl.mapM decFile, dl.mapM Sexp.str?, gf.mapM decGlob, gp.mapM decGlob with
+    | some files, some dirs, some gfake, some gprod =>
+      let fuel := files.length + 2
+      let rootP := parsePath root
+      let tf : Tree := { files := files, dirs := dirs, ext := gfake }
+      let tp : Tree := { files := files, dirs := dirs, ext := gprod }
+      let vf := match decRes fake with
+        | some impl => compareLoad (load (fakeFS o tf) fuel rootP) impl
+        | none => "skip"
+      let vp := match decRes prod with
+        | some impl => compareLoad (load (prodFS o tp) fuel rootP) impl
+        | none => "skip"
+      -- the statement of the property on the implementation's own behaviour: a successful load delivered exactly
+      -- the substitution expansion (no include line, entries in place, matches in sorted order)
+      let spec1 := match decRes fake with
+        | some ("ok", xs) =>
+          match expand (fakeFS o tf) fuel rootP with
+          | some ys => if seqEq (ys.map fun pe => (pathStr pe.1, pe.2)) xs then "agree" else "DISAGREE:fake-delivered-is-not-the-expansion"
+          | none => "DISAGREE:fake-loaded-but-expansion-undefined"
+        | _ => "agree"
+      let spec2 := match decRes prod with
+        | some ("ok", xs) =>
+          match expand (prodFS o tp) fuel rootP with
+          | some ys => if seqEq (ys.map fun pe => (pathStr pe.1, pe.2)) xs then "agree" else "DISAGREE:prod-delivered-is-not-the-expansion"
+          | none => "DISAGREE:prod-loaded-but-expansion-undefined"
+        | _ => "agree"
+      let spec := if spec1 == "agree" then spec2 else spec1
+      s!"{id} fake={vf} prod={vp} gfake={compareGlobs (fakeGlob o tf) gfake} gprod={compareGlobs (prodGlob o tp) gprod} spec={spec}"
+    | _, _, _, _ => s!"{id} undecodable"
+  | _, _, _, _, _, _, _ => s!"{id} bad-case"
+
+def main (args : List String) : IO Unit :=
+  match args with
+  | "load" :: rest =>
+    forEachLine (step { caseSensitive := flag rest "cs" true, literalSeparator := flag rest "sep" true,
+                        literalLeadingDot := flag rest "dot" true })
+  | _ => IO.eprintln "usage: drv c11 load cs=<0|1> sep=<0|1> dot=<0|1>"
 
 end Okane.Drv.C11
